@@ -397,6 +397,10 @@ class PathAnalysis:
 
     def run(self, func):
         tracked = self.tracked_vars(func)
+        retvars = set()
+        for _b, _i, _s, _n in func.nodes(into_seen=True):
+            if _n[0] == "ret" and _n[1] is not None and kind(strip(_n[1])) == "var":
+                retvars.add(strip(_n[1])[1])
         calls = {}
         env0 = {}
         start = (freeze(env0), self.init_user(func))
@@ -458,10 +462,14 @@ class PathAnalysis:
                 if ns in ss:
                     continue
                 if len(ss) >= self.STATE_CAP:
-                    # degrade: forget env, keep typestate
-                    ns = (freeze({}), u2)
+                    # degrade: keep only the returned variables (exit classification), forget the rest
+                    ns = (freeze({k2: v for k2, v in e2.items() if k2 in retvars}), u2)
                     if ns in ss:
                         continue
+                    if len(ss) >= 4 * self.STATE_CAP:
+                        ns = (freeze({}), u2)
+                        if ns in ss:
+                            continue
                 ss.add(ns)
                 work.append((sb, ns))
         return seen
